@@ -17,6 +17,7 @@ func genMore() {
 	genConfig()
 	genSig()
 	genMapRanges()
+	genMainFacts()
 }
 
 type methInfo struct {
